@@ -169,8 +169,11 @@ func AppendUnzstdBytes(dst, src []byte) ([]byte, error) {
 
 // normalizes compression level into [0..7], so it could be used as an index
 // in *PoolMap.
+//
+// CompressZstdSpeedNotSet isn't a valid encoder level (zstd.NewWriter rejects it),
+// so it is mapped to CompressZstdDefault as well.
 func normalizeZstdCompressLevel(level int) int {
-	if level < CompressZstdSpeedNotSet || level > CompressZstdBestCompression {
+	if level <= CompressZstdSpeedNotSet || level > CompressZstdBestCompression {
 		level = CompressZstdDefault
 	}
 	return level
